@@ -555,7 +555,7 @@ class _Capped:
         self.count = {}
 
     def violation(self, what, replay):
-        k = what.split('(')[0]
+        k = what.rsplit(' (case', 1)[0]
         self.count[k] = self.count.get(k, 0) + 1
         if self.count[k] <= self.CAP:
             self.ck.violation(what, replay)
